@@ -1192,7 +1192,7 @@ def r_cursor(f):
                     bad, npaths = size_hint_semantic(b, desc, W, names)
                     R.inst(b.ident, "size_hint equals the number of remaining items m on all %d paths, for L = 0 and L = (m-1)*(W+K)+W with K = 0 and K > 0 (cursor invariant)" % npaths, not bad)
                     for case, conds, got, exp in bad:
-                        R.fail(b.ident, "size_hint[%s]:%s" % (case, got), "%s: with %s the remaining-item count is %s but size_hint returns %s" % (b.ident, case, exp, got), b.where())
+                        R.fail(b.ident, "size_hint[%s]:%s" % (case, got), ("%s: with %s the remaining-item count is %s but size_hint returns %s" % (b.ident, case, exp, got)) if not case.endswith("[length overflow]") else ("%s: size_hint computes %s, a plain `+` on the slice length itself (case: %s): for zero-sized cells the slice can be usize::MAX long and only the gap K is known to fit on top of it, so the sum can overflow - a panic in debug builds, a wrapped count in release builds" % (b.ident, got, case[:-len(" [length overflow]")])), b.where())
                 except Inconclusive as e:
                     ninc += 1
                     R.inconc(b.ident, "engine inconclusive: %s" % e)
@@ -1205,7 +1205,7 @@ def r_cursor(f):
                     bad, npaths = size_hint_semantic(b, desc, W, names, kind="len")
                     R.inst(b.ident, "len equals the number of remaining items m on all %d paths, for L = 0 and L = (m-1)*(W+K)+W with K = 0 and K > 0 (cursor invariant)" % npaths, not bad)
                     for case, conds, got, exp in bad:
-                        R.fail(b.ident, "len[%s]:%s" % (case, got), "%s: with %s the remaining-item count is %s but len returns %s" % (b.ident, case, exp, got), b.where())
+                        R.fail(b.ident, "len[%s]:%s" % (case, got), ("%s: with %s the remaining-item count is %s but len returns %s" % (b.ident, case, exp, got)) if not case.endswith("[length overflow]") else ("%s: len computes %s, a plain `+` on the slice length itself (case: %s): for zero-sized cells the slice can be usize::MAX long and only the gap K is known to fit on top of it, so the sum can overflow - a panic in debug builds, a wrapped count in release builds" % (b.ident, got, case[:-len(" [length overflow]")])), b.where())
                 except Inconclusive as e:
                     R.inconc(b.ident, "engine inconclusive: %s" % e)
                 except (KeyError, IndexError, TypeError, AttributeError) as e:
